@@ -501,6 +501,36 @@ class Gen:
         self.vars[vo]["alive"] = False      # frozen: further re-runs would shift the ordinals of later variables
         self.count("motif_scoped_var")
 
+    def motif_var_dropped_in_closure(self):
+        """a node function writes a variable (deferred: we are stabilising) and the variable's last handle is dropped
+        later in the same stabilise, while another node still reads the variable's watch node (C08/C12)"""
+        rng = self.rng
+        self.mk_var(); x = len(self.nodes) - 1; vx = self.nodes[x]["var"]
+        self.mk_var(); t = len(self.nodes) - 1; vt = self.nodes[t]["var"]
+        self.vars[vx]["alive"] = False          # from now on only the closures below touch it
+        c = rng.randint(0, 4)
+        w = rng.choice([f"setvar v{vx} {c}", f"modvar v{vx} {rng.randint(1, 3)}", f"replvar v{vx} {c}"])
+        if rng.random() < 0.5:
+            fa = self.new_fn(1, [w, f"dropvar v{vx}"])
+            self.act(f"map f{fa} n{t}"); a = self.add_node("map")
+            last = a
+        else:
+            fa = self.new_fn(1, [w])
+            fb = self.new_fn(1, [f"dropvar v{vx}"])
+            self.act(f"map f{fa} n{t}"); a = self.add_node("map")
+            self.act(f"map f{fb} n{a}"); last = self.add_node("map")
+        g = self.new_fn(1, m=7)
+        self.act(f"map f{g} n{x}"); r = self.add_node("map")
+        for k in (last, r):
+            self.act(f"observe n{k}")
+            self.obs.append({"node": k, "clones": 1, "dis": False})
+        self.act("stabilise")
+        self.act("stabilise")
+        if rng.random() < 0.5:
+            self.act(f"modify v{vt} 1")          # the closures run again: their writes are now no-ops
+            self.act("stabilise")
+        self.count("motif_var_dropped_in_closure")
+
     def motif_expert_stale(self):
         """two expert nodes sharing one driver whose own value never changes and which only calls make_stale;
         one of them is unobserved while the driver runs and observed again later"""
@@ -700,6 +730,8 @@ class Gen:
                 (self.motif_expert_stale if r < 0.25 else self.motif_expert_late_target)()
             elif r < 0.07 and self.profile in ("bind", "general", "varw"):
                 self.motif_scoped_var()
+            elif 0.93 < r and self.profile in ("varw", "general") and not self.c01_safe:
+                self.motif_var_dropped_in_closure()
             elif r < 0.12 and self.profile != "static":
                 self.motif_leak()
             elif r < 0.18 and self.profile != "static":
@@ -822,6 +854,8 @@ def gen_maps(rng, debug=True, perkey=False):
     acts.append(f"var {fmt_vmap(maps[1])}")
     acts.append(f"var {rng.randint(0, 4)}")        # n2: outer variable
     nodes = 3
+    nabs = 3          # creation index of the next node (all operators are built before the first stabilise)
+    inputs = []       # per fm/fold/part operator: its input node (the conversion node), which a user program holds
     outs = []
     defs += ["fn f0 lin 7 0 2 1", "fn f1 lin 7 1 1", "fn f2 lin 7 0 1 1", "fn f3 lin 7 1 3",
              "pk P0 lhsconst ; map f0 %0 %1 ; ret %2",        # pure function of value and key
@@ -840,6 +874,7 @@ def gen_maps(rng, debug=True, perkey=False):
             cut = rng.choice(["none", "none", "eq", "never", "always"])
             acts.append(f"perkey {ty} {cut} P{fam} n{src}")
             count(f"perkey_P{fam}_{ty}_{cut}")
+            nabs += 4
         else:
             m = nmf; nmf += 1
             defs.append(f"mfn M{m} {rng.randint(1, 2)} {rng.randint(0, 1)} {rng.choice([2, 3])} {rng.randint(0, 1)} {rng.randint(0, 3)}")
@@ -853,6 +888,10 @@ def gen_maps(rng, debug=True, perkey=False):
             else:
                 acts.append(f"mapop part M{m} n{src}")
             count("mapop_" + kind)
+            if kind == "merge":
+                nabs += 5         # its zip node is internal to incr_merge: no user handle
+            else:
+                inputs.append(nabs); nabs += 3
         outs.append(nodes)
         nodes += 1
     obs = []          # (observer index, alive)
@@ -883,6 +922,33 @@ def gen_maps(rng, debug=True, perkey=False):
             observe(rng.choice(outs))
             count("reobserve")
         acts.append("stabilise") if rng.random() < 0.7 else None
+    if rng.random() < 0.35:
+        # an operator recomputes on an input EQUAL to the one it last saw: its outputs are unobserved while the input
+        # (kept alive by a direct observer) changes and changes back; then it is observed again and one key is edited
+        acts.append("stabilise")
+        for v in inputs:
+            acts.append(f"observe #{v}")      # the operator's input node: a user program holds a handle of it
+            obs.append([None, True])
+        for i, (o, a) in enumerate(obs):
+            if a and o in outs:
+                acts.append(f"disallow o{i}")
+                obs[i][1] = False
+        acts.append("stabilise")
+        v = rng.choice([0, 1])
+        keep = dict(maps[v])
+        away = edit_map(rng, keep)
+        acts.append(f"set v{v} {fmt_vmap(away)}")
+        acts.append("stabilise")
+        acts.append(f"set v{v} {fmt_vmap(keep)}")
+        acts.append("stabilise")
+        for o in outs:
+            observe(o)
+        acts.append("stabilise")
+        k = rng.randint(1, 6)
+        maps[v] = dict(keep); maps[v][k] = (keep.get(k, 0) + 1) % 4
+        acts.append(f"set v{v} {fmt_vmap(maps[v])}")
+        acts.append("stabilise")
+        count("roundtrip_unobserved")
     acts.append("stabilise")
     acts.append("dropall")
     return "\n".join(lines + defs + acts) + "\n", stats
